@@ -1345,7 +1345,11 @@ int bufr_apply_tables2node
  * applying time or location descriptor followed by replication or separate by table C descriptor
  */
 /* a 205YYY would turn a TABLE C into CCITT_IA5 */
-   if (f == 2)
+/* 
+ * an operator flagged as skipped belongs to a delayed replication that occurs zero times: 
+ * it is not part of the expanded sequence and must not change the state for what follows
+ */
+   if ((f == 2) && !(cb->flags & FLAG_SKIPPED))
       {
       int version = tmplt->edition;
       if (BUFR_STRICT==ddo->enforce)
